@@ -125,7 +125,7 @@ def run(ctx):
         failing.append((c, events[vid - 1], clauses, triggers | set("fn:" + f for f in c["fns"])))
     ctx.traces_validated = len(cases)
     ctx.exhaustive = True
-    ctx.rule = ("URLs: every state of the URL-building machine of C19.tla with <= %d path segments (+ optional trailing slash, <= 1 query item) over each platform's route "
+    ctx.rule = ("URLs: every state of the URL-building machine of C19.tla with <= %d path segments (+ optional trailing slash, <= 1 query item; one segment more on the first host, bare) over each platform's route "
                 "vocabulary and hosts, plus RandomSubset states with 4 segments, 2 items and a fragment, plus foreign strings; per URL 30 calls (all parse_* / extract_* / "
                 "has_* / is_* / convert_* / normalize functions of the six modules, both option values); non-trivial = some parser returned a record" % ctx.pick(2, 3))
     ctx.assumptions = ["documented result types: Documented in spec/C19.tla (from the modules' docstrings / README)",
